@@ -12,6 +12,7 @@
 (*   c.tm      NoneT | K: time_trigger "once(now + K ms)";  c.tmPast: a time trigger whose    *)
 (*             specification has no future instant                                            *)
 (*   c.to      NoneT | N: timeout in ms (0 allowed)                                           *)
+(*   c.S       NoneT | state_hold in ms (the hold automaton itself is C05's: HoldCore)        *)
 (*   c.flags   named deviations of the code ({} = the statement)                              *)
 (* Timeline entries e = [t, k, v]: k = "set" (entity a gets value v), "fire" (event e1 with   *)
 (* data v), "cancel" (the waiting task is cancelled).                                         *)
@@ -25,45 +26,58 @@ Ret(t, tt, v) == Out("return", t, [tt |-> tt, v |-> v])
 IsNum(v) == v \in {"0", "1", "2"}
 StTruth(c, v) == v = "1"
 
-\* outcome of the initial part of the call, or "go" to keep waiting
+\* hold state of the state condition: h = [w (a hold is pending), hs (its start), v (what it will return)]
+H0 == [w |-> FALSE, hs |-> 0, v |-> "-"]
+HasHold(c) == c.st # "none" /\ c.S # NoneT
+
+\* outcome of the initial part of the call, or "go" to keep waiting (with the hold the initial check may start)
 Initial(c, a0) ==
   IF c.st = "none" /\ c.ev = "none" /\ c.tm = NoneT /\ ~c.tmPast
   THEN IF c.to = NoneT THEN Ret(c.t0, "none", "-") ELSE Ret(c.t0 + c.to, "timeout", "-")     \* nothing to wait for
   ELSE IF c.st # "none" /\ c.check /\ c.st = "int" /\ ~IsNum(a0) THEN Out("raise", c.t0, "ValueError")
-  ELSE IF c.st # "none" /\ c.check /\ StTruth(c, a0) THEN Ret(c.t0, "state", "init")
+  ELSE IF c.st # "none" /\ c.check /\ StTruth(c, a0) /\ ~HasHold(c) THEN Ret(c.t0, "state", "init")
   ELSE IF c.st = "none" /\ c.ev = "none" /\ c.tm = NoneT /\ c.tmPast /\ c.to = NoneT THEN Ret(c.t0, "none", "-")
   ELSE IF c.to = 0 THEN Ret(c.t0, "timeout", "-")
   ELSE Out("go", 0, "-")
+InitialHold(c, a0) == IF HasHold(c) /\ c.check /\ (c.st # "int" \/ IsNum(a0)) /\ StTruth(c, a0)
+                      THEN [w |-> TRUE, hs |-> c.t0, v |-> "init"] ELSE H0
 
-\* first qualifying entry of the timeline after the call, with timers as competitors
-RECURSIVE Scan(_, _, _, _)
-Scan(c, tl, i, a) ==
+\* first qualifying entry of the timeline after the call, with timers (and a pending state_hold) as competitors;
+\* at equal instants the time trigger / timeout come before the hold expiry
+RECURSIVE Scan(_, _, _, _, _)
+Scan(c, tl, i, a, h) ==
   LET tmAt == IF c.tm = NoneT THEN NoneT ELSE c.t0 + c.tm
       toAt == IF c.to = NoneT THEN NoneT ELSE c.t0 + c.to
-      \* the earlier of the two timers that is due before time `upto` (NoneT: none)
+      hAt  == IF h.w THEN h.hs + c.S ELSE NoneT
+      \* the earliest timer that is due before time `upto`
       TimerBefore(upto) ==
-        LET tmDue == tmAt # NoneT /\ (upto = NoneT \/ tmAt < upto)
-            toDue == toAt # NoneT /\ (upto = NoneT \/ toAt < upto)
-        IN IF tmDue /\ (~toDue \/ tmAt < toAt) THEN Ret(tmAt, "time", "-")
-           ELSE IF toDue THEN Ret(toAt, "timeout", "-")
+        LET tmDue == tmAt # NoneT /\ tmAt < upto
+            toDue == toAt # NoneT /\ toAt < upto
+            hDue  == hAt # NoneT /\ hAt < upto
+            Earlier(x, y, ydue) == ~ydue \/ x <= y
+        IN IF tmDue /\ Earlier(tmAt, toAt, toDue) /\ Earlier(tmAt, hAt, hDue) THEN Ret(tmAt, "time", "-")
+           ELSE IF toDue /\ Earlier(toAt, hAt, hDue) THEN Ret(toAt, "timeout", "-")
+           ELSE IF hDue THEN Ret(hAt, "state", h.v)
            ELSE Out("go", 0, "-")
   IN IF i > Len(tl) THEN (LET tb == TimerBefore(c.horizon + 1) IN IF tb.k = "go" THEN Out("waiting", c.horizon, "-") ELSE tb)
      ELSE LET e == tl[i] IN
-       IF e.t <= c.t0 THEN Scan(c, tl, i + 1, IF e.k = "set" THEN e.v ELSE a)       \* before the call: no effect
+       IF e.t <= c.t0 THEN Scan(c, tl, i + 1, IF e.k = "set" THEN e.v ELSE a, h)    \* before the call: no effect
        ELSE LET tb == TimerBefore(e.t) IN
          IF tb.k # "go" THEN tb
          ELSE CASE e.k = "cancel" -> Out("cancelled", e.t, "-")
                 [] e.k = "set" ->
-                     IF c.st = "none" \/ e.v = a THEN Scan(c, tl, i + 1, e.v)
+                     IF c.st = "none" \/ e.v = a THEN Scan(c, tl, i + 1, e.v, h)
                      ELSE IF c.st = "int" /\ ~IsNum(e.v) THEN Out("raise", e.t, "ValueError")
-                     ELSE IF StTruth(c, e.v) THEN Ret(e.t, "state", e.v)
-                     ELSE Scan(c, tl, i + 1, e.v)
+                     ELSE IF StTruth(c, e.v)
+                          THEN IF ~HasHold(c) THEN Ret(e.t, "state", e.v)
+                               ELSE Scan(c, tl, i + 1, e.v, IF h.w THEN h ELSE [w |-> TRUE, hs |-> e.t, v |-> e.v])   \* hold starts / continues
+                          ELSE Scan(c, tl, i + 1, e.v, [h EXCEPT !.w = FALSE])                                        \* a false evaluation cancels it
                 [] e.k = "fire" ->
-                     IF c.ev = "none" THEN Scan(c, tl, i + 1, a)
+                     IF c.ev = "none" THEN Scan(c, tl, i + 1, a, h)
                      ELSE IF c.ev = "err" THEN Out("raise", e.t, "NameError")
                      ELSE IF c.ev = "plain" \/ e.v = "1" THEN Ret(e.t, "event", e.v)
-                     ELSE Scan(c, tl, i + 1, a)
-                [] OTHER -> Scan(c, tl, i + 1, a)
+                     ELSE Scan(c, tl, i + 1, a, h)
+                [] OTHER -> Scan(c, tl, i + 1, a, h)
 
 \* value of a at the time of the call
 RECURSIVE ValueAt(_, _, _, _)
@@ -73,7 +87,7 @@ ValueAt(tl, i, t0, a) == IF i > Len(tl) \/ tl[i].t > t0 THEN a
 Outcome(c, tl, a0) ==
   LET a  == ValueAt(tl, 1, c.t0, a0)
       i0 == Initial(c, a)
-  IN IF i0.k = "go" THEN Scan(c, tl, 1, a0)
+  IN IF i0.k = "go" THEN Scan(c, tl, 1, a0, InitialHold(c, a))
      ELSE IF i0.k = "return" /\ i0.t > c.t0                       \* plain timeout sleep: may still be cancelled
           THEN LET C == { j \in 1..Len(tl) : tl[j].k = "cancel" /\ tl[j].t > c.t0 /\ tl[j].t < i0.t } IN
                IF C = {} THEN i0 ELSE Out("cancelled", tl[CHOOSE j \in C : \A j2 \in C : j <= j2].t, "-")
